@@ -122,6 +122,7 @@ Section ERun.
         match sfind E KTyped c with
         | None => Exn XAttributeError
         | Some k => td_nondict (konst_u E) k.(sc_fields) end
+    | UBox b u' => r <- on_u u' s ;; Ok (box_val b r)   (* collections.deque(...) / OrderedDict(...) / ChainMap( ... ): the class call itself never raises *)
     end.
 
   Fixpoint ue (d: pv) {struct d} : pdec -> res pv :=
@@ -287,6 +288,7 @@ Section ERun.
               | _ => td_nondict (konst_u E) k.(sc_fields)
               end
           end
+      | UBox b u' => r <- on_u u' ;; Ok (box_val b r)
       end.
 
   (* decoding a value of type t at a codec root / inside a container; as a dataclass field *)
